@@ -476,6 +476,25 @@ class FuncTypes:
                     counts[n.arg] = counts.get(n.arg, 0) + 2
             self._maliases = {k: v for k, v in val.items() if counts.get(k) == 1 and
                               (isinstance(v, ast.Attribute) or (isinstance(v, ast.IfExp) and isinstance(v.body, ast.Attribute) and isinstance(v.orelse, ast.Attribute)))}
+            # a loop variable (component) over a literal table whose entries are bound methods:  for st, check in ((A, self.f), (B, self.g))
+            for n in ast.walk(self.func.node):
+                if isinstance(n, (ast.For, ast.comprehension)):
+                    it = n.iter
+                    if isinstance(it, ast.Name) and counts.get(it.id) == 1 and isinstance(val.get(it.id), (ast.Tuple, ast.List)):
+                        it = val[it.id]
+                    if not isinstance(it, (ast.Tuple, ast.List)):
+                        continue
+                    cands = {}
+                    for row in it.elts:
+                        if isinstance(n.target, ast.Name) and isinstance(row, ast.Attribute):
+                            cands.setdefault(n.target.id, []).append(row)
+                        elif isinstance(n.target, (ast.Tuple, ast.List)) and isinstance(row, (ast.Tuple, ast.List)) and len(row.elts) == len(n.target.elts):
+                            for tg, el in zip(n.target.elts, row.elts):
+                                if isinstance(tg, ast.Name) and isinstance(el, ast.Attribute):
+                                    cands.setdefault(tg.id, []).append(el)
+                    for nm, lst in cands.items():
+                        if counts.get(nm, 0) == 2 and nm not in self._maliases:   # (bound by this loop only)
+                            self._maliases[nm] = lst
         return self._maliases
 
     def resolve_call(self, call):
@@ -502,7 +521,7 @@ class FuncTypes:
             al = self.method_aliases().get(f.id)
             if al is not None:
                 out, res = [], True
-                for a in ([al.body, al.orelse] if isinstance(al, ast.IfExp) else [al]):   # `f = self.a if c else self.b`: either
+                for a in ([al.body, al.orelse] if isinstance(al, ast.IfExp) else (al if isinstance(al, list) else [al])):   # `f = self.a if c else self.b`: either
                     syn = ast.Call(func=a, args=call.args, keywords=call.keywords)
                     ast.copy_location(syn, call)
                     cs, r = self.resolve_call(syn)
